@@ -38,3 +38,67 @@ func Verif_C32_sizePacker() {
 	}
 	verifReach("end")
 }
+
+func verifC32Elements() [][]byte {
+	k := verifChoice("k", verifParam("maxElements")+1)
+	data := make([][]byte, k)
+	for i := range data {
+		data[i] = verifBytes("el", verifChoice("len", 4)) // lengths 0..3, the empty string included
+	}
+	return data
+}
+
+func verifC32SameLists(got, data [][]byte) {
+	verifAssert(len(got) == len(data), "same number of elements")
+	if len(got) == len(data) {
+		for i := range data {
+			verifAssert(len(got[i]) == len(data[i]), "same element length")
+			if len(got[i]) == len(data[i]) {
+				for j := range data[i] {
+					verifAssert(got[i][j] == data[i][j], "same element bytes")
+				}
+			}
+		}
+	}
+}
+
+// SimpleDataPacker: its size notion is the payload sum of a chunk.
+func Verif_C32_simplePacker() {
+	m := &marshal.GogoProtoMarshalizer{}
+	sdp, _ := NewSimpleDataPacker(m)
+	data := verifC32Elements()
+	limit := 1 + verifChoice("limit", 8)
+	chunks, err := sdp.PackDataInChunks(data, limit)
+	verifAssert(err == nil, "no error")
+	var got [][]byte
+	for _, c := range chunks {
+		b := &batch.Batch{}
+		verifAssert(m.Unmarshal(b, c) == nil, "chunk unmarshals")
+		verifAssert(len(b.Data) > 0, "no empty chunk")
+		payload := 0
+		for _, e := range b.Data {
+			payload += len(e)
+		}
+		verifAssert(len(b.Data) == 1 || payload < limit, "chunk payload below the limit unless it holds a single element")
+		got = append(got, b.Data...)
+	}
+	verifC32SameLists(got, data)
+	verifReach("end")
+}
+
+// DataSplit: chunks are lists of elements.
+func Verif_C32_dataSplit() {
+	ds := &DataSplit{}
+	data := verifC32Elements()
+	limit := 1 + verifChoice("limit", 8)
+	chunks, err := ds.SplitDataInChunks(data, limit)
+	verifAssert(err == nil, "no error")
+	var got [][]byte
+	for _, c := range chunks {
+		verifAssert(len(c) > 0, "no empty chunk")
+		verifAssert(len(c) <= limit, "at most the configured number of elements per chunk") // DataSplit's limit counts elements
+		got = append(got, c...)
+	}
+	verifC32SameLists(got, data)
+	verifReach("end")
+}
